@@ -326,6 +326,8 @@ func liveView(r *credx.Rig, kl int, mode credx.Mode, set map[string][]byte, keys
 				pr = r.ProbeUDP(key)
 			}
 			switch {
+			case listed && pr.OK && pr.User == want && !pr.ReplyOK:
+				return fmt.Sprintf("%s client with k%d (listed for %s) is accepted but the server's reply does not make the round trip: %s", tr, i, want, pr.ReplyErr)
 			case listed && !pr.OK:
 				return fmt.Sprintf("%s client with k%d (listed for %s) is refused: %s", tr, i, want, pr.Err)
 			case listed && pr.User != want:
